@@ -94,6 +94,9 @@ def _case(draw, kind):
                 layout=draw(st.sampled_from(["C", "C", "F"])),
                 persistent_out=draw(st.sampled_from([False, False, False, True])),
                 mid_fault=draw(st.sampled_from([None, None, None, 1, 2, 4, 7, 12])),
+                # between two judged calls the public step() method is called directly (a trial step with another size from the
+                # reached point, or a step somewhere else): it leaves its own slopes in the integrator's buffers
+                direct_step=(draw(st.sampled_from([None, None, "same_point", "same_point", "elsewhere"])) if kind != "implicit" else None),
                 prelude_fault=draw(st.sampled_from([None, None, None, 2, 5, 9, 14, 20, 33])),
                 prelude_overflow=(draw(st.sampled_from([False, False, False, True])) if kind != "implicit" else False),
                 # a transient fault INSIDE the judged call, of a type the integrators answer with a second attempt of the step
@@ -416,6 +419,18 @@ def check(case):
         nd = float(next_dt)
         if np.isfinite(nd) and nd != 0 and np.sign(nd) == np.sign(float(h)):
             h = dt(np.sign(nd) * min(abs(nd), 2.0))
+        if case.get("direct_step") and step_no == 0:
+            try:
+                if case["direct_step"] == "same_point":
+                    integ.step(rhs, t, y.copy(), cdict, dt(0.5 * h))
+                else:
+                    integ.step(rhs, dt(case["jump_t"]), np.asarray(case["jump_y"], dtype=dt).reshape(shape), cdict, dt(h))
+                labels.append("direct_step_call_between_judged_calls:" + case["direct_step"])
+            except Exception as e:
+                if exc_origin(e)[0] == "harness":
+                    raise
+                viols.append(V("step_raised", "{}: a direct call of step() between two calls raised {!r}".format(name, e), sig + exc_sig(e), **attrs))
+                break
         if case.get("mid_fault") is not None and step_no == 0:
             # between two steps (of the same size, for fixed-step methods) a call with ANOTHER step size dies in the rhs
             fault_at[0] = evals[0] + case["mid_fault"]
